@@ -68,6 +68,9 @@ SHAPES = [
     ("args", "{ s t: s(v: 1) a }", ["Query.s", "Query.a"]),
     ("nested-list", "{ l { l { x } } }", ["Obj.l", "Obj.x"]),
     ("typename", "{ __typename o { __typename x } a }", ["Query.o", "Obj.x", "Query.a"]),
+    # root type with exactly one field, selected repeatedly through aliases (schema-shape shortcuts)
+    ("single-root", "{ p: o { x } q: o(id: 2) { x o { x } } }", ["Query.o", "Obj.x", "Obj.o"], "single"),
+    ("fragments", "{ ...F ... on Query { b } } fragment F on Query { a o { ...G } } fragment G on Obj { x y }", ["Query.a", "Query.b", "Obj.x", "Obj.y"]),
 ]
 STYLES = ("default", "sync", "async", "nested")
 
@@ -107,10 +110,12 @@ def _style_assignments(coords, tier):
 
 
 def cases(tier):
-    for name, query, coords in SHAPES:
+    for shape in SHAPES:
+        name, query, coords = shape[:3]
+        sdl = shape[3] if len(shape) > 3 else "full"
         for combo in _style_assignments(coords, tier):
             custom = {c: s for c, s in zip(coords, combo) if s != "default"}
-            yield {"kind": "exec", "shape": name, "query": query, "custom": custom}
+            yield {"kind": "exec", "shape": name, "query": query, "custom": custom, "sdl": sdl}
     from mc.checks import _baton_cases
 
     for c in _baton_cases.cases(tier):
@@ -153,7 +158,7 @@ def _check_exec(case, st, tier):
 
     b = BOUNDS[tier]
     out = []
-    base = {"query": case["query"], "custom": case["custom"]}
+    base = {"query": case["query"], "custom": case["custom"], "sdl": case.get("sdl", "full")}
     # invoked custom paths from a fault-free reference run
     ref0, w0 = H.run_config("blocking-opt", dict(base, overrides={}), None, fast=True)
     paths = []
